@@ -22,7 +22,7 @@
 From Coq Require Import List NArith.
 From Dials Require Import Base.Outcome Reflect.Ty Reflect.Heap Copy.DeepCopy Copy.DeepCopySpec
   Copy.DeepCopyInv Copy.DeepCopyTerm Copy.DeepCopyBisim Copy.DeepCopySharing Copy.DeepCopyTotal Copy.DeepCopyFacts
-  Stack.ComposeH Stack.History Stack.ConfigGraphs.
+  Copy.DeepCopyGuard Stack.ComposeH Stack.History Stack.ConfigGraphs.
 Import ListNotations.
 Open Scope N_scope.
 
@@ -101,6 +101,36 @@ Theorem config_on_graphs_partial : forall fuel fs h n0 defaults H N d vs,
     (forall a o, hget h a = Some o -> hget H a = Some o).
 Proof. exact config_on_graphs_partial_b. Qed.
 
+(* The heap a copy leaves behind satisfies the guards again (with a ranking
+   rk' in which every new backing array has the rank of the array it was
+   copied from): copies can be iterated - Config's entry copy followed by
+   compose's copy, re-stacks from the pristine copy. *)
+Theorem deep_copy_guard_preserved : forall h n0 R D rk v fuel st' v',
+  wf_heap h n0 -> wf_rank h R D rk -> wf_kinds h -> wf_root n0 R D rk v -> vok h v ->
+  deep_copy true fuel h n0 v = Done (st', v') ->
+  exists rk', wf_heap (c_heap st') (c_next st') /\ wf_rank (c_heap st') R D rk' /\ wf_kinds (c_heap st') /\
+              wf_root (c_next st') R D rk' v' /\ vok (c_heap st') v'.
+Proof. exact deep_copy_guard_l. Qed.
+
+(* The Config path on graphs (memory part), no longer conditional on returning:
+   under the decidable guard the entry copy returns, and with fuel for a heap of
+   n1 = c_next st1 addresses (the allocator position the entry copy left) the
+   whole call returns a config bisimilar to the caller's defaults, allocated by
+   the call, the caller's heap untouched.  (ptrify.Pointerify's walk over the
+   template's interface payloads: Ptrify/PtrifyWalk - see notes.) *)
+Theorem config_on_graphs : forall fuel fs h n0 R D rk defaults,
+  c03_guard_total h n0 R D rk (HPtr (Some defaults)) = true ->
+  (copy_fuel n0 R D <= fuel)%nat ->
+  exists st1 d,
+    deep_copy true fuel h n0 (HPtr (Some defaults)) = Done (st1, HPtr (Some d)) /\
+    ((copy_fuel (c_next st1) R D <= fuel)%nat ->
+     exists H N v pm mm,
+       config_h fuel fs h n0 defaults [mk_event [] []] = Done ((H, N), d, [v]) /\
+       vrel pm mm H (HPtr (Some defaults)) (HPtr (Some (v_root v))) /\ bisim pm mm H /\
+       (forall a, reach H [(RCell, v_root v)] a -> n0 <= a /\ hget h a = None) /\
+       (forall a o, hget h a = Some o -> hget H a = Some o)).
+Proof. exact config_on_graphs_b. Qed.
+
 Print Assumptions deep_copy_terminates.
 Print Assumptions deep_copy_succeeds.
 Print Assumptions deep_copy_expands_once.
@@ -108,3 +138,5 @@ Print Assumptions deep_copy_bisimilar.
 Print Assumptions deep_copy_sharing.
 Print Assumptions deep_copy_fresh.
 Print Assumptions config_on_graphs_partial.
+Print Assumptions deep_copy_guard_preserved.
+Print Assumptions config_on_graphs.
